@@ -54,6 +54,29 @@ var paramPool = map[string][]string{
 	"mean": {"t"}, "norm": {"t"}, "sort": {"cum", "flat"}, "g": {"lines", "files", "functions"}, "noinlines": {"t"}, "showcolumns": {"t"}, "dropneg": {"t"}, "intel": {"t"}, "prunefrom": {"pf"},
 	"tagroot": {"k"}, "tagleaf": {"bytes"},
 }
+// boolParams are the yes/no options among the URL parameters; their values are compared by
+// meaning (pprof reads t, true, 1, yes, y and f, false, 0, no, n alike), all others literally.
+var boolParams = map[string]bool{"trim": true, "calltree": true, "rel": true, "compact": true, "mean": true, "norm": true, "noinlines": true, "showcolumns": true, "dropneg": true, "intel": true}
+
+func sameParam(k, a, b string) bool {
+	if a == b {
+		return true
+	}
+	if !boolParams[k] {
+		return false
+	}
+	val := func(v string) string {
+		switch strings.ToLower(v) {
+		case "t", "true", "1", "yes", "y":
+			return "true"
+		case "f", "false", "0", "no", "n":
+			return "false"
+		}
+		return "?" + v
+	}
+	return val(a) == val(b)
+}
+
 var paramDefaults = map[string]string{"n": "-1", "nf": "0.005", "ef": "0.001", "trim": "t", "unit": "minimum", "sort": "flat"}
 
 func paramKeys() []string {
@@ -269,7 +292,7 @@ func runRoundTrip(c *harness.Ctx) harness.Result {
 				if want == paramDefaults[k] {
 					want = ""
 				}
-				if got.Get(k) != want {
+				if !sameParam(k, got.Get(k), want) {
 					res.Verdict, res.Detail = harness.Violated, fmt.Sprintf("configuration %q was saved with %s=%q but its Config-menu URL has %s=%q (menu URL %s)\n%s", n, k, model[n].Get(k), k, got.Get(k), got.Encode(), strings.Join(log, "\n"))
 					return res
 				}
